@@ -131,6 +131,45 @@ pub fn fmt_v6(g: [u16; 8], style: V6Style, rng: &mut Rng) -> String {
 
 const OCTETS: [u8; 12] = [0, 1, 9, 10, 99, 100, 127, 199, 200, 249, 250, 255];
 
+/// Semantically special IPv4 addresses (loopback, link-local, multicast, private, CGNAT, ...).
+pub fn special_v4(rng: &mut Rng) -> [u8; 4] {
+    let (x, y) = (rng.u8(), rng.u8());
+    match rng.below(10) {
+        0 => [127, 0, 0, 1],
+        1 => [127, x, y, 1],
+        2 => [169, 254, x, y],
+        3 => [224, 0, 0, x],
+        4 => [10, x, y, 1],
+        5 => [192, 168, x, y],
+        6 => [100, 64, x, y],
+        7 => [172, 16, x, y],
+        8 => [198, 51, 100, x],
+        _ => [240, x, y, 255],
+    }
+}
+
+/// Semantically special IPv6 addresses: IPv4-mapped / -compatible, link-local with and without
+/// an embedded zone, multicast, NAT64, 6to4, ULA, documentation, loopback.  Code that "normalises"
+/// one of these classes is a classic source of asymmetries between parser and builder.
+pub fn special_v6(rng: &mut Rng, class: u64) -> [u16; 8] {
+    let q = if rng.coin() { special_v4(rng) } else { rand_v4(rng) };
+    let (hi, lo) = (u16::from_be_bytes([q[0], q[1]]), u16::from_be_bytes([q[2], q[3]]));
+    let r = |rng: &mut Rng| rng.u16() | 1;
+    match class % 12 {
+        0 | 1 => [0, 0, 0, 0, 0, 0xffff, hi, lo],
+        2 => [0, 0, 0, 0, 0, 0, hi, lo.max(2)],
+        3 => [0xfe80, r(rng), 0, 0, r(rng), r(rng), r(rng), r(rng)],
+        4 => [0xfe80, 0, 0, 0, r(rng), r(rng), r(rng), r(rng)],
+        5 => [0xff02, 0, 0, 0, 0, 0, 0, 1 + (lo & 0xff)],
+        6 => [0x64, 0xff9b, 0, 0, 0, 0, hi, lo],
+        7 => [0x2002, hi, lo, 0, 0, 0, 0, 1],
+        8 => [0xfc00 | (hi & 0x1ff), r(rng), r(rng), r(rng), 0, 0, 0, 1],
+        9 => [0x2001, 0xdb8, 0, 0, 0, 0, hi, lo],
+        10 => [0, 0, 0, 0, 0, 0, 0, 1],
+        _ => [0xfe80, r(rng), 0, 0, 0, 0, 0, 1],
+    }
+}
+
 pub fn rand_v4(rng: &mut Rng) -> [u8; 4] {
     let mut a = [0u8; 4];
     match rng.below(10) {
@@ -181,9 +220,13 @@ pub fn rand_port(rng: &mut Rng) -> u16 {
     }
 }
 
-/// A distinct (source, destination) pair of ports.
+/// A (source, destination) pair of ports: distinct, except for 1 pair in 32 (a self-connection
+/// is legal too, and code that special-cases it must not go unnoticed).
 pub fn rand_port_pair(rng: &mut Rng) -> (u16, u16) {
     let a = rand_port(rng);
+    if rng.chance(1, 32) {
+        return (a, a);
+    }
     let mut b = rand_port(rng);
     while b == a {
         b = rand_port(rng);
@@ -192,8 +235,12 @@ pub fn rand_port_pair(rng: &mut Rng) -> (u16, u16) {
 }
 
 pub fn rand_v4_pair(rng: &mut Rng) -> ([u8; 4], [u8; 4]) {
-    let a = rand_v4(rng);
-    let mut b = rand_v4(rng);
+    let special = rng.chance(1, 6);
+    let a = if special { special_v4(rng) } else { rand_v4(rng) };
+    if rng.chance(1, 32) {
+        return (a, a);
+    }
+    let mut b = if special && rng.coin() { special_v4(rng) } else { rand_v4(rng) };
     while b == a {
         b = rand_v4(rng);
     }
@@ -201,12 +248,98 @@ pub fn rand_v4_pair(rng: &mut Rng) -> ([u8; 4], [u8; 4]) {
 }
 
 pub fn rand_v6_pair(rng: &mut Rng) -> ([u16; 8], [u16; 8]) {
+    if rng.chance(1, 5) {
+        // semantically special addresses; half of the time both from the same class
+        let c = rng.below(12);
+        let a = special_v6(rng, c);
+        if rng.chance(1, 16) {
+            return (a, a);
+        }
+        let mut b = match rng.below(4) {
+            0 | 1 => special_v6(rng, c),
+            2 => {
+                let c2 = rng.below(12);
+                special_v6(rng, c2)
+            }
+            _ => rand_v6(rng),
+        };
+        while b == a {
+            b = rand_v6(rng);
+        }
+        return (a, b);
+    }
     let a = rand_v6(rng);
+    if rng.chance(1, 32) {
+        return (a, a);
+    }
     let mut b = rand_v6(rng);
     while b == a {
         b = rand_v6(rng);
     }
     (a, b)
+}
+
+/// A TCP6 line body whose total length (with CRLF) lands around the 107-byte limit: only
+/// possible with zero-padded groups and/or the mixed `x:x:x:x:x:x:d.d.d.d` notation (45 bytes).
+pub fn tcp6_near_limit(rng: &mut Rng) -> String {
+    let long = |rng: &mut Rng| -> String {
+        // every group four hex digits
+        let g: Vec<String> = (0..8).map(|_| format!("{:04x}", rng.u16() | 0x1000)).collect();
+        if rng.coin() {
+            g.join(":")
+        } else {
+            let q = [rng.range(100, 255) as u8, rng.range(100, 255) as u8, rng.range(10, 255) as u8, rng.range(1, 255) as u8];
+            format!("{}:{}", g[..6].join(":"), fmt_v4(q))
+        }
+    };
+    let port = |rng: &mut Rng| -> String {
+        let d = rng.range(1, 5);
+        let lo = 10u64.pow(d as u32 - 1);
+        let hi = (10u64.pow(d as u32) - 1).min(65535);
+        rng.range(if d == 1 { 0 } else { lo }, hi).to_string()
+    };
+    let (mut sp, mut dp) = (port(rng), port(rng));
+    if sp == dp {
+        sp = "1".into();
+        dp = "22".into();
+    }
+    format!("PROXY TCP6 {} {} {} {}", long(rng), long(rng), sp, dp)
+}
+
+/// Decorations of a VALID address that make it invalid (brackets, zone, prefix length, port,
+/// sign, padding, surrounding control characters).
+pub fn decorate_addr(rng: &mut Rng, addr: &str) -> String {
+    match rng.below(12) {
+        0 => format!("[{}]", addr),
+        1 => format!("{}%1", addr),
+        2 => format!("{}/32", addr),
+        3 => format!("{}:80", addr),
+        4 => format!("+{}", addr),
+        5 => format!("0{}", addr),
+        6 => format!("{}.", addr),
+        7 => format!("{}\t", addr),
+        8 => format!("[{}", addr),
+        9 => format!("{}]", addr),
+        10 => {
+            let mut t = addr.to_string();
+            t.push('\0');
+            t
+        }
+        _ => format!("{}{}", addr, addr),
+    }
+}
+
+/// A random string over characters that sit next to the digits in ASCII (and a few classics),
+/// which the oracle confirms not to be a valid port.
+pub fn random_bad_port(rng: &mut Rng) -> String {
+    const AL: &[u8] = b"0123456789/:;<=>?@+-. _xXaAfF";
+    loop {
+        let n = rng.range(1, 6);
+        let s: String = (0..n).map(|_| *rng.pick(AL) as char).collect();
+        if !s.contains(' ') && crate::v1::parse_port(&s).is_err() {
+            return s;
+        }
+    }
 }
 
 // ---------------------------------------------------------------------------------------------
@@ -297,6 +430,13 @@ pub fn unknown_tail(rng: &mut Rng) -> String {
 
 /// A valid line body (no CRLF).
 pub fn valid_body(rng: &mut Rng) -> String {
+    if rng.chance(1, 24) {
+        // long TCP6 spellings; only the ones that still fit the limit are valid
+        let b = tcp6_near_limit(rng);
+        if b.len() + 2 <= 107 {
+            return b;
+        }
+    }
     match rng.below(10) {
         0..=2 => valid_tcp_fields(rng, false).join(" "),
         3..=6 => valid_tcp_fields(rng, true).join(" "),
@@ -327,7 +467,8 @@ pub const BAD_PORT: [&str; 30] = [
     "+80", "-1", "080", "00", "", "65536", "99999", "100000", "1e3", "0x50", "８０", "٨٠", "80\n", "\n80", "80\u{0}", "4294967376",
     "18446744073709551696", "65535.0", "-0", "+0", "+", "-", "0x0", "1_000", "0_0", "01", "000", "+65535", "65535\t", "six",
 ];
-pub const BAD_V4: [&str; 26] = [
+pub const BAD_V4: [&str; 28] = [
+    "[1.2.3.4]", "1.2.3.4%1",
     "256.1.1.1", "1.2.3", "1.2.3.4.5", "01.2.3.4", "1.2.3.04", "1..3.4", "1.2.3.", ".1.2.3", "1.2.3.4x", "a.b.c.d", "::1", "1.2.3.-4", "+1.2.3.4",
     "1.2.3.4/8", "0x1.2.3.4", "1.2.3.256", "1.2.3.4:80", "999.999.999.999", "1,2,3,4", "١.٢.٣.٤", "", "1.2.3.0004", "127.1", "2130706433", "1.2.3.4\n",
     "1.2.3.4\u{0}",
@@ -338,6 +479,32 @@ pub const BAD_V6: [&str; 32] = [
     "0x1::", "1:2:3:4:5:6:7::8", "::1\n", "::\u{0}", "１::", ":", "1:2:3:4:5:6:1.2.3.4:8", "::1.2.3.4:5", "1:2:3:4:5:6:7:8::",
 ];
 
+/// An invalid spelling for element `e` (0 keyword, 1 protocol, 2/3 addresses, 4/5 ports) of a
+/// TCP line: from the fixed pools, or a decoration of the valid value, or a random near-miss.
+pub fn bad_spelling(rng: &mut Rng, e: usize, v6: bool, valid: &str) -> String {
+    match e {
+        0 => (*rng.pick(&BAD_KEYWORD)).to_string(),
+        1 => (*rng.pick(&BAD_PROTOCOL)).to_string(),
+        2 | 3 => match rng.below(3) {
+            0 => decorate_addr(rng, valid),
+            _ => {
+                if v6 {
+                    (*rng.pick(&BAD_V6)).to_string()
+                } else {
+                    (*rng.pick(&BAD_V4)).to_string()
+                }
+            }
+        },
+        _ => {
+            if rng.coin() {
+                random_bad_port(rng)
+            } else {
+                (*rng.pick(&BAD_PORT)).to_string()
+            }
+        }
+    }
+}
+
 /// G-field: a valid TCP line with one structural or lexical fault.
 pub fn faulty_body(rng: &mut Rng) -> String {
     let v6 = rng.coin();
@@ -345,19 +512,7 @@ pub fn faulty_body(rng: &mut Rng) -> String {
     let e = rng.below(6) as usize;
     match rng.below(10) {
         0..=5 => {
-            let bad: &str = match e {
-                0 => *rng.pick(&BAD_KEYWORD),
-                1 => *rng.pick(&BAD_PROTOCOL),
-                2 | 3 => {
-                    if v6 {
-                        *rng.pick(&BAD_V6)
-                    } else {
-                        *rng.pick(&BAD_V4)
-                    }
-                }
-                _ => *rng.pick(&BAD_PORT),
-            };
-            f[e] = bad.to_string();
+            f[e] = bad_spelling(rng, e, v6, &f[e]);
         }
         6 => {
             f.remove(e);
@@ -409,7 +564,14 @@ pub fn trailers() -> Vec<Vec<u8>> {
         b" 1\r\n".to_vec(),
         b"\xff\xfe".to_vec(),
         b"\xc3".to_vec(),
+        "€".repeat(50).into_bytes(),
+        " é".repeat(70).into_bytes(),
     ]
+}
+
+/// Large trailers (used sparingly: they cost a copy each).
+pub fn big_trailers() -> Vec<Vec<u8>> {
+    vec![vec![b'x'; 4200], vec![0u8; 70_000], b"PROXY UNKNOWN\r\n".repeat(300)]
 }
 
 // ---------------------------------------------------------------------------------------------
@@ -664,7 +826,41 @@ pub fn near_limit(rng: &mut Rng) -> Vec<u8> {
         v.truncate(total.max(head.len().min(total)));
         v
     };
-    match rng.below(8) {
+    match rng.below(11) {
+        8 => {
+            // TCP6 lines of 96..=116 bytes (zero-padded groups / mixed notation)
+            let mut v = tcp6_near_limit(rng).into_bytes();
+            v.extend_from_slice(b"\r\n");
+            v
+        }
+        9 => {
+            // no CR, 100..=112 bytes, with multi-byte characters (bytes != characters)
+            let total = rng.range(100, 112) as usize;
+            let mut s = String::from(*rng.pick(&["PROXY UNKNOWN ", "PROXY UNKNOWN", "", "PROXY TCP4 1.2.3.4 "]));
+            while s.len() < total {
+                let room = total - s.len();
+                let c = *rng.pick(&['é', 'x', '€', ' ', '😀', 'a']);
+                if c.len_utf8() <= room {
+                    s.push(c);
+                } else {
+                    s.push('x');
+                }
+            }
+            s.into_bytes()
+        }
+        10 => {
+            // a valid header (or an open line) followed by a long non-ASCII tail, so that byte
+            // offsets 107 / 108 fall inside a multi-byte character for some alignments
+            let mut s = if rng.chance(3, 4) { format!("{}\r\n", valid_body(rng)) } else { "PROXY UNKNOWN a".to_string() };
+            for _ in 0..rng.below(4) {
+                s.push('x');
+            }
+            let c = *rng.pick(&["é", "€", "😀", "éx€"]);
+            while s.len() < 150 {
+                s.push_str(c);
+            }
+            s.into_bytes()
+        }
         0 | 1 => {
             // UNKNOWN line of total length 103..=111 with CRLF
             let total = rng.range(103, 111) as usize;
@@ -744,7 +940,7 @@ pub fn v1_streams(tier: Tier, unit: u64) -> Vec<StreamSpec> {
         stream("v1-valid", tier.n(300, 60 * u, 4000 * u)),
         stream("v1-field", tier.n(300, 60 * u, 4000 * u)),
         stream("v1-eol", tier.n(300, 40 * u, 3000 * u)),
-        stream("v1-len", tier.n(100, 20 * u, 1500 * u)),
+        stream("v1-len", tier.n(150, 40 * u, 3000 * u)),
         stream("v1-mut", tier.n(300, 60 * u, 5000 * u)),
         stream("v1-rand", tier.n(100, 30 * u, 2500 * u)),
         exhaustive("v1-token-seq", token_seq_count(tier.n(2, 5, 6) as u32)),
